@@ -83,3 +83,37 @@ func TestGetFromWriteBufferIsAPrivateCopy(t *testing.T) {
 		t.Errorf("modifying the slice returned by Get changed what the DB returns: %q...", v2[:12])
 	}
 }
+
+// obligation leveldb.(*DB).writeLocked:assert(C20:callers-batch-not-extended)
+// Write must leave the caller's batch as it was, also when records of concurrent writers are merged into the same
+// journal write.
+func TestWriteLeavesCallersBatchUntouched(t *testing.T) {
+	db, err := leveldb.Open(storage.NewMemStorage(), nil)
+	must(t, err)
+	defer db.Close()
+	stop := make(chan struct{})
+	done := make(chan struct{})
+	go func() {
+		defer close(done)
+		for i := 0; ; i++ {
+			select {
+			case <-stop:
+				return
+			default:
+			}
+			_ = db.Put([]byte{'p', byte(i), byte(i >> 8)}, []byte("concurrent"), nil)
+		}
+	}()
+	for i := 0; i < 3000; i++ {
+		b := new(leveldb.Batch)
+		b.Put([]byte{'w', byte(i), byte(i >> 8)}, []byte("mine"))
+		must(t, db.Write(b, nil))
+		if b.Len() != 1 {
+			close(stop)
+			<-done
+			t.Fatalf("after Write the caller's batch holds %d records, it was built with 1 (records of other writers were merged into it)", b.Len())
+		}
+	}
+	close(stop)
+	<-done
+}
